@@ -759,11 +759,11 @@ class Run:
             return f.fn(self, args, kw, lineno)
         if isinstance(f, FuncRef):
             return self.call_contract(f.qualname, args, kw, lineno)
-        if isinstance(f, tuple) and f and f[0] == 'boundmethod':
+        if isinstance(f, tuple) and f and isinstance(f[0], str) and f[0] == 'boundmethod':
             return self.call_contract(f[2], [f[1]] + args, kw, lineno)
-        if isinstance(f, tuple) and f and f[0] == 'boundlib':
+        if isinstance(f, tuple) and f and isinstance(f[0], str) and f[0] == 'boundlib':
             return self.lib.method(self, f[1], f[2], args, kw, lineno)
-        if isinstance(f, tuple) and f and f[0] == 'gnodes':
+        if isinstance(f, tuple) and f and isinstance(f[0], str) and f[0] == 'gnodes':
             return f
         if isinstance(f, PyConst) and isinstance(f.v, tuple) and f.v[0] == 'modattr':
             name = f.v[1] + '.' + f.v[2]
